@@ -11,6 +11,14 @@ from .values import *  # noqa: F403
 REGISTRY: dict[str, "Contract"] = {}
 
 
+def _uniq(ex, name, fixed):
+    """Symbols of parameters are named after the parameter (fixed); every other instance is unique."""
+    if fixed:
+        return name
+    ex.fresh_n += 1
+    return f"{name}!{ex.fresh_n}"
+
+
 class Type:
     """Parameter type: how to make a fresh symbolic value and how to read it from a model."""
 
@@ -80,6 +88,8 @@ class Union(Type):
 
     def fresh(self, ex, name, fixed=False):
         # nested unions (record fields) are resolved lazily, on first read
+        name = _uniq(ex, name, fixed)
+        fixed = True
         tag = z3.Int(f"{name}#case")
         return SLazy(tag, self.alts, name)
 
@@ -102,6 +112,8 @@ class Rec(Type):
         self.label = cls
 
     def fresh(self, ex, name, fixed=False):
+        name = _uniq(ex, name, fixed)
+        fixed = True
         cref = ex_class(ex, self.cls, self.module)
         o = HObj(cref, {}, label=name)
         for k, t in self.fields.items():
@@ -168,7 +180,8 @@ class TupleOf(Type):
         self.label = "tuple"
 
     def fresh(self, ex, name, fixed=False):
-        return tuple(t.fresh(ex, f"{name}.{i}", fixed) for i, t in enumerate(self.elts))
+        name = _uniq(ex, name, fixed)
+        return tuple(t.fresh(ex, f"{name}.{i}", True) for i, t in enumerate(self.elts))
 
 
 class DictOf(Type):
@@ -177,12 +190,30 @@ class DictOf(Type):
         self.label = f"dict[{k},{v}]"
 
     def fresh(self, ex, name, fixed=False):
+        name = _uniq(ex, name, fixed)
         ks, vs = ELEM_SORT[self.k], ELEM_SORT[self.v]
         d = HDict(ksort=self.k, vkind=self.v,
                   has=z3.Const(f"{name}.has", z3.ArraySort(ks, BoolSort)),
                   val=z3.Const(f"{name}.val", z3.ArraySort(ks, vs)))
         if self.ordered:
             d.order = z3.Const(f"{name}.order", z3.SeqSort(ks))
+        return d
+
+
+class DictOfLists(Type):
+    """defaultdict(list) keyed by str: every key maps to a sequence of objects (absent keys: empty)."""
+
+    label = "defaultdict(list)"
+
+    def fresh(self, ex, name, fixed=False):
+        name = _uniq(ex, name, fixed)
+        ks, vs = ELEM_SORT["str"], ELEM_SORT["seq_any"]
+        d = HDict(ksort="str", vkind="seq_any", has=z3.Const(f"{name}.has", z3.ArraySort(ks, BoolSort)),
+                  val=z3.Const(f"{name}.val", z3.ArraySort(ks, vs)))
+        d.list_default = True
+        # representation invariant of the view: a key that is absent maps to the empty list
+        k = z3.Const("k!dl", ks)
+        ex.assume(z3.ForAll([k], z3.Implies(z3.Not(z3.Select(d.has, k)), z3.Select(d.val, k) == z3.Empty(vs))))
         return d
 
 
@@ -194,7 +225,8 @@ class ConcreteList(Type):
         self.label = f"list{len(elts)}"
 
     def fresh(self, ex, name, fixed=False):
-        return HList(items=[t.fresh(ex, f"{name}[{i}]", fixed) for i, t in enumerate(self.elts)])
+        name = _uniq(ex, name, fixed)
+        return HList(items=[t.fresh(ex, f"{name}[{i}]", True) for i, t in enumerate(self.elts)])
 
 
 class Opaque(Type):
@@ -205,14 +237,14 @@ class Opaque(Type):
         self.label = label
 
     def fresh(self, ex, name, fixed=False):
-        return self.factory(ex, name)
+        return self.factory(ex, _uniq(ex, name, fixed))
 
 
 class Contract:
     def __init__(self, target, props, params, pre=(), post=(), raises=None, post_exc=None, modifies=(),
                  returns=None, loops=None, unroll=None, inline=(), locals_=None, globals_=None,
                  build=None, always_inline=False, assume_noraise=False, any_raises=None, note="",
-                 ghost_pre=(), checks=None, max_cases=400, enter=(), obj_fields=None, obj_protocol=None, ghost=None, mutable_fields=(), obj_methods=None, opaque_methods=None, aliases=None, regex_total=None, lemmas=(), assumed=None):
+                 ghost_pre=(), checks=None, max_cases=400, enter=(), obj_fields=None, obj_protocol=None, ghost=None, mutable_fields=(), obj_methods=None, opaque_methods=None, aliases=None, regex_total=None, lemmas=(), assumed=None, opaque_classes=(), post_internal=()):
         self.target = target
         self.props = list(props)
         self.params = dict(params)
@@ -243,6 +275,9 @@ class Contract:
         self.aliases = dict(aliases or {})
         self.regex_total = dict(regex_total or {})
         self.lemmas = list(lemmas)
+        self.opaque_classes = set(opaque_classes)
+        # postconditions over ghost state of the function's own run: proved, but not assumed at call sites
+        self.post_internal = list(post_internal)
         self.assumed = assumed   # reason: the contract is used at call sites but its function is NOT verified
         self._alias_map = None
         REGISTRY[target] = self
